@@ -148,3 +148,16 @@ extern "C" void h_longkey(void)
 	vp_note(v.length());
 	vp_reach(5);
 }
+
+// string escapes: "a\Xb" with X any byte, and "\u00HH" with symbolic last two digits: both parsers agree with the strict recogniser
+extern "C" void h_escape(void)
+{
+	int mode = vp_param(0);
+	char t[24]; int n = 0;
+	t[n++] = '['; t[n++] = '"'; t[n++] = 'a'; t[n++] = '\\';
+	if (mode == 0) { char c = (char)nondet_u8(); vp_assume(c != 0); t[n++] = c; }
+	else { t[n++] = 'u'; t[n++] = '0'; t[n++] = '0'; for (int i = 0; i < 2; i++) { char c = (char)nondet_u8(); vp_assume((c >= '0' && c <= '9') || (c >= 'a' && c <= 'f') || (c >= 'A' && c <= 'F') || c == 'g' || c == '"'); t[n++] = c; } }
+	t[n++] = 'b'; t[n++] = '"'; t[n++] = ']'; t[n] = 0;
+	both(t, n);
+	vp_reach(6);
+}
